@@ -143,8 +143,11 @@ class OriginPeer:
 
     def on_send(self, sock, data):
         if self.req is None and b"\r\n\r\n" in bytes(sock.written):
-            self.req = HS.parse_request(bytes(sock.written))
-            sock.stream += HS.response_101(self.req["key"])
+            try:
+                self.req = HS.parse_request(bytes(sock.written))
+                sock.stream += HS.response_101(self.req["key"])
+            except Exception:
+                self.req = {"unparsable": bytes(sock.written)}  # e.g. a CONNECT sent to the origin: no answer
 
 
 class ProxyPeer:
@@ -382,6 +385,52 @@ def redirect_case(urls, envd, popt):
     return None
 
 
+def resolver_fault_case(scheme, via, fault, faults):
+    """The resolver fails `faults` times (EAI_AGAIN / EAI_NONAME) before it answers. Whatever the client does about it (give up, retry), every
+    lookup and every TCP connection still goes where the proxy rule says: to the proxy when one applies, to the origin otherwise."""
+    import socket as S
+    lib.reset_globals()
+    env.install_urandom("counter")
+    net = simnet.Net()
+    left = [faults]
+
+    def resolver(host, port_):
+        if left[0] > 0:
+            left[0] -= 1
+            raise S.gaierror(S.EAI_AGAIN if fault == "again" else S.EAI_NONAME, "Temporary failure in name resolution" if fault == "again" else "Name or service not known")
+        return [(S.AF_INET, "198.51.100.7" if host == "proxy.example" else "192.0.2.9")]
+
+    net.resolver = resolver
+    net.peer_for = lambda n_, s, a: ProxyPeer(b"HTTP/1.1 200 Connection established\r\n\r\n") if a[1] == 3128 else OriginPeer()
+    opts, envd = {}, {}
+    if via == "option":
+        opts = {"http_proxy_host": "proxy.example", "http_proxy_port": 3128}
+    elif via == "env":
+        envd = {"http_proxy" if scheme == "ws" else "https_proxy": PROXY_URL}
+    set_env(envd)
+    simnet.install(net)
+    try:
+        ws = lib.websocket.WebSocket()
+        try:
+            ws.connect("%s://target.example/res" % scheme, **opts)
+            out = None
+        except Exception as e:
+            out = e
+    finally:
+        simnet.uninstall()
+        set_env({})
+    label = "%s://target.example, proxy via %s, resolver failing %d time(s) with %s" % (scheme, via, faults, "EAI_AGAIN" if fault == "again" else "EAI_NONAME")
+    sig = {"kind": "route-under-resolver-fault", "scheme": scheme, "proxy": via, "fault": fault}
+    if out is not None and not isinstance(out, (lib.websocket.WebSocketException, OSError)):
+        return (dict(sig, kind="unexpected-exception", exc=type(out).__name__), "%s: connect() raised %s: %s" % (label, type(out).__name__, out))
+    want_host, want_port = ("proxy.example", 3128) if via != "none" else ("target.example", 80 if scheme == "ws" else 443)
+    res = [(e[1], e[2]) for e in net.log if e[0] == "resolve"]
+    conns = [e[2] for e in net.log if e[0] == "connect"]
+    if any(r != (want_host, want_port) for r in res) or any(c[1] != want_port for c in conns):
+        return (dict(sig, via_proxy_wrongly=via == "none"), "%s: lookups %r and connections %r; everything must go to %s:%d" % (label, res, conns, want_host, want_port))
+    return None
+
+
 def redirect_cases():
     out = []
     for s1 in ("ws", "wss"):
@@ -417,6 +466,7 @@ def tasks(tier, seed):
     ts.append({"part": "connect", "name": "connect"})
     ts.append({"part": "replies", "name": "replies"})
     ts.append({"part": "redirect", "name": "redirect"})
+    ts.append({"part": "resolver", "name": "resolver"})
     return ts
 
 
@@ -465,6 +515,14 @@ def run_task(desc):
                                     rec(guarded(connect_case, scheme, popt, frozenset(envset), ex, envurl=envurl, tport=tport),
                                         {"case": "connect", "args": [scheme, popt, sorted(envset), ex, None, envurl, tport]})
         res["samples"].append({"connect": "scheme x proxy option x 16 env subsets x exemption source x env credentials"})
+    elif desc["part"] == "resolver":
+        for scheme in ("ws", "wss"):
+            for via in ("none", "option", "env"):
+                for fault in ("again", "noname"):
+                    for faults in (1, 2, 5):
+                        n += 1
+                        rec(guarded(resolver_fault_case, scheme, via, fault, faults), {"case": "resolver", "args": [scheme, via, fault, faults]})
+        res["samples"].append({"resolver_fault_cases": n})
     elif desc["part"] == "redirect":
         for urls, envd, popt in redirect_cases():
             n += 1
@@ -490,6 +548,8 @@ def replay(rep):
         f = decision_case(rep["host"], rep["np"], rep["src"])
     elif rep["case"] == "redirect":
         f = redirect_case(*rep["args"])
+    elif rep["case"] == "resolver":
+        f = resolver_fault_case(*rep["args"])
     else:
         a = rep["args"]
         kw = {"envurl": a[5], "tport": a[6] if len(a) > 6 else None}
